@@ -999,7 +999,10 @@ class CollapseCollector(WrappingCollector):
         # collapsed. (Zero and False are values.)
         return ckey is None or ckey == u"" or ckey == b""
 
-    def collect_matches(self):
+    def collect(self, sub_docnum):
+        # The collapsing is done here (not in collect_matches()) so it also
+        # happens when a wrapping collector, e.g. a FilterCollector, feeds this
+        # collector the documents one by one
         lists = self.lists
         limit = self.limit
         keyer = self.keyer
@@ -1007,48 +1010,48 @@ class CollapseCollector(WrappingCollector):
         collapsed_counts = self.collapsed_counts
 
         child = self.child
-        matcher = child.matcher
         offset = child.offset
-        for sub_docnum in child.matches():
-            # Collapsing category key
-            ckey = keyer.key_to_name(keyer.key_for(matcher, sub_docnum))
-            if self._is_empty_key(ckey):
-                # If the document isn't in a collapsing category, just add it
-                child.collect(sub_docnum)
-            else:
-                global_docnum = offset + sub_docnum
 
-                if orderer:
-                    # If user specified a collapse order, use it
-                    sortkey = orderer.key_for(child.matcher, sub_docnum)
-                else:
-                    # Otherwise, use the results order
-                    sortkey = child.sort_key(sub_docnum)
+        # Collapsing category key
+        ckey = keyer.key_to_name(keyer.key_for(child.matcher, sub_docnum))
+        if self._is_empty_key(ckey):
+            # If the document isn't in a collapsing category, just add it
+            return child.collect(sub_docnum)
 
-                # Current list of best docs for this collapse key
-                best = lists[ckey]
-                add = False
-                if len(best) < limit:
-                    # If the heap is not full yet, just add this document
-                    add = True
-                elif sortkey < best[-1][0]:
-                    # If the heap is full but this document has a lower sort
-                    # key than the highest key currently on the heap, replace
-                    # the "least-best" document
-                    # Tell the child collector to remove the document
-                    child.remove(best.pop()[1])
-                    add = True
-                    # The removed document was filtered out after all
-                    collapsed_counts[ckey] += 1
-                    self.collapsed_total += 1
+        global_docnum = offset + sub_docnum
 
-                if add:
-                    insort(best, (sortkey, global_docnum))
-                    child.collect(sub_docnum)
-                else:
-                    # Remember that a document was filtered
-                    collapsed_counts[ckey] += 1
-                    self.collapsed_total += 1
+        if orderer:
+            # If user specified a collapse order, use it
+            sortkey = orderer.key_for(child.matcher, sub_docnum)
+        else:
+            # Otherwise, use the results order
+            sortkey = child.sort_key(sub_docnum)
+
+        # Current list of best docs for this collapse key
+        best = lists[ckey]
+        add = False
+        if len(best) < limit:
+            # If the heap is not full yet, just add this document
+            add = True
+        elif sortkey < best[-1][0]:
+            # If the heap is full but this document has a lower sort
+            # key than the highest key currently on the heap, replace
+            # the "least-best" document
+            # Tell the child collector to remove the document
+            child.remove(best.pop()[1])
+            add = True
+            # The removed document was filtered out after all
+            collapsed_counts[ckey] += 1
+            self.collapsed_total += 1
+
+        if add:
+            insort(best, (sortkey, global_docnum))
+            return child.collect(sub_docnum)
+        else:
+            # Remember that a document was filtered
+            collapsed_counts[ckey] += 1
+            self.collapsed_total += 1
+            return sortkey
 
     def results(self):
         r = self.child.results()
